@@ -120,7 +120,15 @@ def handle (inp out : List String) : String :=
       -- the squared distances |r - s_k|^2 are evaluated with an absolute error of a few ulp of (1 + |r|^2); the LLR is their
       -- differences times 1/(2 sigma^2): for extreme sigma / |r| that rounding, not a relative 1e-9, is the floor of any comparison
       let cond : Float := 64 * 1.2e-16 * (1 / (s * s)) * (1 + re * re + im * im)
+      -- C14Round.psk8_rounded_linear: implementation and Float model are both within 47(u+e)(D+1) of the exact posterior
+      -- log-ratio, D = (|re|+|im|)/sigma^2, so they differ by at most twice that (u = 2^-53; e = 2^-50 assumed for libm exp / ln_1p;
+      -- not judged when an intermediate overflows or 1/sigma^2 is subnormal: outside the standard model)
+      let dB : Float := (re.abs + im.abs) / (s * s)
+      let proved : Float := 2 * 47 * (1.1102230246251565e-16 + 8.881784197001252e-16) * (dB + 1)
+      let inModel : Bool := dB.isFinite && (1 / (s * s)).abs ≥ 2.2250738585072014e-308 && dB < 1e300
+      let within (a b : Float) : Bool := !inModel || (a - b).abs ≤ proved
       let okModel := close o0 m.1 1e-9 (1e-12 + cond) && close o1 m.2.1 1e-9 (1e-12 + cond) && close o2 m.2.2 1e-9 (1e-12 + cond)
+        && within o0 m.1 && within o1 m.2.1 && within o2 m.2.2
       let w := [posterior8 s re im 0, posterior8 s re im 1, posterior8 s re im 2]
       let okPost := close o0 (w.getD 0 0) 1e-9 (1e-9 + cond) && close o1 (w.getD 1 0) 1e-9 (1e-9 + cond) && close o2 (w.getD 2 0) 1e-9 (1e-9 + cond)
       let prop := if !okPost then some s!"8psk-llr-is-not-the-posterior-log-ratio want={w} got={[o0, o1, o2]}" else none
